@@ -150,17 +150,21 @@ def analyse(F, s, classes, stores=None):
         else:
             ts.unclassified[x] = "not a cursor (%s); not a counter (%s)" % (as_cursor[1], as_counter[1])
     # a cursor assigned from another field is only valid if that field is a cursor too
-    for x, pf in list(ts.cursors.items()):
-        for lab, t in posts[x]:
-            for conds, leaf in leaves(t):
-                if leaf[0] == "pre" and leaf[1].startswith("self.") and leaf[1] != "self." + x:
-                    other = leaf[1].split(".", 1)[1]
-                    if other not in ts.cursors:
-                        ts.unclassified[x] = "copied from `%s`, which is not a cursor" % other
-                        del ts.cursors[x]
-                        break
-            if x not in ts.cursors:
-                break
+    demoted = True
+    while demoted:  # to a fixpoint: a copy of a copy of a counter is no cursor either, whatever the order of the fields
+        demoted = False
+        for x, pf in list(ts.cursors.items()):
+            for lab, t in posts[x]:
+                for conds, leaf in leaves(t):
+                    if leaf[0] == "pre" and leaf[1].startswith("self.") and leaf[1] != "self." + x:
+                        other = leaf[1].split(".", 1)[1]
+                        if other not in ts.cursors:
+                            ts.unclassified[x] = "copied from `%s`, which is not a cursor" % other
+                            del ts.cursors[x]
+                            demoted = True
+                            break
+                if x not in ts.cursors:
+                    break
     # from here on every stored result uses one spelling of the bookkeeping (also in the facts and operands of the sites)
     def _cs(x):
         return canon_state_ts(ts, x)
@@ -197,8 +201,9 @@ def analyse(F, s, classes, stores=None):
                     if tc is None and tn is None:
                         continue  # pure delegation / does not touch the ring bookkeeping
                     if fn.trait_short != "Next":
-                        # any other method (reset, an inherent helper) must leave cursor <= counter: both back to 0, or untouched
-                        if not ((tc == cu(0) and tn in (cu(0), None)) or (tc is None and tn is None)):
+                        # any other method (reset, an inherent helper) restarts the ring (both back to 0) or leaves it alone: a cursor reset
+                        # alone keeps cursor <= counter but breaks "slot c is the oldest", which C01/C13/C09 read off the same lockstep
+                        if not ((tc == cu(0) and tn == cu(0)) or (tc is None and tn is None)):
                             good = False
                         continue
                     if not (_is_wrap(tc, cfield, pf) and _is_satinc(tn, nfield, pf)):
